@@ -241,9 +241,9 @@ def make_incomplete(stats):
 
 
 def parts(tier):
-    n = 1000 if tier == "quick" else 30000
-    return [hyp_part("general", make_general, int(n * 0.5)), hyp_part("extreme", make_extreme, int(n * 0.2)),
-            hyp_part("order-sensitive", make_order_sensitive, int(n * 0.3)), hyp_part("incomplete", make_incomplete, int(n * 0.2))]
+    n = 1600 if tier == "quick" else 30000
+    return [hyp_part("general", make_general, int(n * 0.45)), hyp_part("extreme", make_extreme, int(n * 0.3)),
+            hyp_part("order-sensitive", make_order_sensitive, int(n * 0.2)), hyp_part("incomplete", make_incomplete, int(n * 0.15))]
 
 
 def replay(case):
